@@ -611,6 +611,7 @@ TEMPLATES = {
     "loop_unsized_length_first": "{% for i in ugen %}{{ loop.length }}:{{ loop.last }}:{{ loop.nextitem }}:{{ loop.revindex }};{% endfor %}",
     "loop_filtered_last_then_length": "{% for i in xs if i != 2 %}{{ i }}:{{ loop.last }}:{{ loop.length }}/{{ loop.revindex }}/{{ loop.revindex0 }};{% endfor %}",
     "loop_filtered_unsized_nextitem": "{% for i in ugen if i %}{{ loop.nextitem }}:{{ loop.revindex0 }}:{{ loop.length }};{% else %}none{% endfor %}",
+    "loop_unsized_len_filter": "{% for i in ugen %}{{ loop|length }}{% endfor %}",
     "loop_unsized_recursive": "{% for n in (t for t in tree) recursive %}{{ loop.last }}{{ loop.length }}{{ n.v }}{% if n.c %}({{ loop(n.c) }}){% endif %}{% endfor %}" if False else
                               "{% for n in utree recursive %}{{ loop.last }}{{ loop.length }}/{{ loop.revindex }}:{{ n.v }}{% if n.c %}({{ loop(n.c) }}){% endif %}{% endfor %}",
 }
@@ -964,7 +965,7 @@ def variant_tasks():
     ts = []
     for w in ("slice", "unique", "join", "list"):
         ts.append(Variant(f"do_{w}", "async", c22.AsyncDelegate(w)))
-    ts += [Variant("do_sum", "sync", c22.Sum()), Variant("do_sum", "async", c22.AsyncSum(False)), Variant("do_sum", "async", c22.AsyncSum(True))]
+    ts += [Variant("do_sum", "sync", c22.Sum())]   # the async side: SumVariant (hunt_tasks)
     ts += [Variant("do_first", "sync", c22.First(False)), Variant("do_first", "async", c22.First(True))]
     ts += [Variant("do_map", "sync", c22.MapGen(False)), Variant("do_map", "async", c22.MapGen(True))]
     ts += [Variant("select_or_reject", "sync", c22.SelectGen(False)), Variant("select_or_reject", "async", c22.SelectGen(True))]
@@ -985,7 +986,8 @@ def variant_cases():
         "first": [([], (), {}), (xs, (), {}), (strs, (), {})],
         "list": [([], (), {}), (xs, (), {}), ("abc", (), {})],
         "join": [(xs, (), {}), (xs, (",",), {}), (ds[:3], ("-",), {"attribute": "a"}), ([], (",",), {}), (["<", "b"], ("<",), {})],
-        "sum": [(xs, (), {}), ([], (), {}), (xs, (), {"start": 5}), (ds[:3], ("a",), {}), ([[1], [2]], (), {"start": [0]}), ([1.5, 2], (), {"start": 1})],
+        "sum": [(xs, (), {}), ([], (), {}), (xs, (), {"start": 5}), (ds[:3], ("a",), {}), ([[1], [2]], (), {"start": [0]}), ([1.5, 2], (), {"start": 1}),
+                ([0.1] * 10, (), {}), ([1e100, 1.0, -1e100], (), {}), (["a", "b"], (), {"start": ""}), ([{"p": 0.1}, {"p": 0.2}, {"p": 0.3}], ("p",), {})],
         "unique": [(strs, (), {}), (strs, (True,), {}), (ds[:3], (), {"attribute": "a"}), ([], (), {})],
         "slice": [(xs, (2,), {}), (xs, (3, "x"), {}), ([], (2,), {}), (xs, (4,), {})],
         "groupby": [(ds[:3], ("a",), {}), (ds, ("a",), {"default": 9}), (ds[:3], ("n",), {"case_sensitive": True}), ([], ("a",), {})],
@@ -1512,6 +1514,320 @@ def entry_task(name):
     return t
 
 
+# =====================================================================================================
+# obligations added after the hunt round (reports /verif/hunt/e/C09_*)
+# =====================================================================================================
+
+# ---- C09_1: the bridge between the two do_sum contracts.  contracts.c22 proves  sync_do_sum == builtin sum(map(f, xs), start)  and
+# async do_sum == left fold of `+` from `start`; the pair agrees only if builtin sum IS that left fold.  That was an unstated dependency
+# spec; it is checked here on a value family (floats: compensated summation since CPython 3.12; str/bytes start values are refused).
+
+def sum_lemma(task, tier, seed):
+    fam = [("ints", [1, 2, 3], 0), ("int_start", [1, 2], 5), ("lists", [[1], [2]], []), ("tuples", [(1,), (2,)], ()), ("bools", [True, False], 0),
+           ("floats_tenths", [0.1] * 10, 0), ("floats_prices", [0.1, 0.2, 0.3], 0), ("floats_cancel", [1e100, 1.0, -1e100], 0), ("float_start", [0.1, 0.2], 0.3),
+           ("mixed_int_float", [1, 0.1, 0.2], 0), ("str_start", ["a", "b"], ""), ("str_start_empty", [], ""), ("bytes_start", [b"a"], b""), ("fractions", [__import__("fractions").Fraction(1, 3)] * 3, 0)]
+    rs = []
+    for i, (name, xs, start) in enumerate(fam):
+        def run(f):
+            try:
+                return ("ok", repr(f()))
+            except Exception as ex:  # noqa
+                return ("err", type(ex).__name__)
+
+        def fold():
+            rv = start
+            for x in xs:
+                rv = rv + x
+            return rv
+
+        a, b = run(lambda: sum(xs, start)), run(fold)
+        ok = a == b
+        kind = "float-summation" if name.startswith(("float", "mixed")) else ("str-or-bytes-start" if "start" in name and not ok else name)
+        rs.append(Res(f"C09.variant.do_sum.builtin_sum_is_left_fold#p{i}", "discharged" if ok else "refuted", "table", 0,
+                      "" if ok else f"builtin sum({xs!r}, {start!r}) -> {a} but the `+` loop of the async do_sum -> {b}: sync_do_sum (builtin sum) and the async variant (loop) differ",
+                      "table", None if ok else {"lemma": kind, "xs": repr(xs), "start": repr(start)}))
+    return rs
+
+
+def sum_lemma_replay(w):
+    import warnings
+    from jinja2 import Environment
+    cases = [("{{ xs|sum }}", {"xs": [0.1] * 10}), ("{{ xs|sum }}", {"xs": [1e100, 1.0, -1e100]}), ("{{ xs|sum(start='') }}", {"xs": ["a", "b"]}),
+             ("{{ items|sum(attribute='price') }}", {"items": [{"price": 0.1}, {"price": 0.2}, {"price": 0.3}]})]
+    for src, ctx in cases:
+        outs = []
+        for is_async in (False, True):
+            outs.append(outcome(lambda: Environment(enable_async=is_async).from_string(src).render(**ctx)))
+        if outs[0] != outs[1]:
+            return True, f"{src} with {ctx}: sync -> {outs[0]}, async -> {outs[1]}"
+    return False, "sync and async sum agree on the float / str-start family"
+
+
+class SumVariant(Task):
+    """async do_sum: either it delegates to sync_do_sum on auto_to_list(iterable) (then the delegate contract decides alone), or it
+    re-implements the summation as a loop (contracts.c22.AsyncSum: left fold) and then ALSO needs builtin sum to be that left fold."""
+    prop = PROP
+    kind = "vc"
+    name = "C09.variant.do_sum.async"
+
+    def run(self, tier, seed):
+        from contracts import c22
+
+        class SumDelegate(c22.AsyncDelegate):
+            TABLE = dict(c22.AsyncDelegate.TABLE, sum=("sync_do_sum", ["environment", "iterable", "attribute", "start"], 1))
+
+        try:
+            rs = SumDelegate("sum").run(tier, seed)
+        except Exception:  # noqa
+            rs = []
+        if rs and all(r.status == "discharged" for r in rs):
+            for r in rs:
+                r.name = "C09.variant.do_sum.async." + r.name.split(".")[-1]
+            return rs
+        out = []
+        for inner in (c22.AsyncSum(False), c22.AsyncSum(True)):
+            for r in inner.run(tier, seed):
+                r.name = "C09.variant.do_sum.async." + r.name[len(inner.name):].lstrip(".")
+                out.append(r)
+        return out + sum_lemma(self, tier, seed)
+
+    def finding_key(self, res):
+        w = res.witness or {}
+        return "sum-lemma:" + w.get("lemma", "") if "lemma" in w else None
+
+    def replay(self, w):
+        return sum_lemma_replay(w)
+
+
+# ---- C09_2: what an async variant returns must be consumable by every other filter / test / operator, like the sync result is
+
+def consumable_table(task, tier, seed):
+    rs = []
+    sync_only = sorted(n for n, f in F.FILTERS.items() if not getattr(f, "jinja_async_variant", False) and n in
+                       ("sort", "min", "max", "batch", "reverse", "last", "dictsort", "length", "count", "random", "tojson", "xmlattr", "urlencode"))
+    for n in VARIANT_NAMES:
+        w = F.FILTERS[n]
+        cells = {k: c.cell_contents for k, c in zip(w.__code__.co_freevars, w.__closure__ or ())}
+        af = cells.get("async_func")
+        gen = inspect.isasyncgenfunction(af)
+        if not gen:
+            # `async def f(...): return g(...)` with g an async generator function hands out the async generator as well
+            node, _ = extract.function_ast(af)
+            for st_ in ast.walk(node):
+                if isinstance(st_, ast.Return) and isinstance(st_.value, ast.Call) and isinstance(st_.value.func, ast.Name):
+                    if inspect.isasyncgenfunction(getattr(F, st_.value.func.id, None)):
+                        gen = True
+        sync_gen = inspect.isgeneratorfunction(cells.get("normal_func"))
+        ok = not gen
+        rs.append(Res(f"C09.variant.result_consumable.do_{n}", "discharged" if ok else "refuted", "table", 0,
+                      "" if ok else f"the async variant of `{n}` is an async generator function: its result (sync: a{' generator' if sync_gen else 'n iterable'}) cannot be iterated by the "
+                                    f"filters that have no async variant ({', '.join(sync_only)}), by `in`, tuple unpacking, *args, dict() or the `iterable` test",
+                      "table", None if ok else {"consumable": n}))
+    return rs
+
+
+COMPOSE = ["{{ [3,1,2]|@P|sort }}", "{{ [3,1,2]|@P|max }}", "{{ [3,1,2]|@P|batch(2)|list }}", "{{ [3,1,2]|@P|reverse|list }}", "{{ 3 in [3,1,2]|@P }}",
+           "{{ [3,1,2]|@P is iterable }}", "{% set a, b, c = [3,1,2]|@P %}{{ a }}{{ b }}{{ c }}", "{{ '%s-%s-%s'|format(*[3,1,2]|@P) }}", "{{ [3,1,2]|@P|last }}", "{{ [3,1,2]|@P|length }}"]
+PRODUCERS = {"map": "map('int')", "select": "select", "reject": "reject('none')", "selectattr": None, "rejectattr": None, "unique": "unique", "slice": None, "groupby": None, "list": "list"}
+
+
+def compose_disagreements(only=None):
+    from jinja2 import Environment
+    bad = []
+    n = 0
+    for prod, expr in PRODUCERS.items():
+        if expr is None or (only and prod != only):
+            continue
+        for tpl in COMPOSE:
+            src = tpl.replace('@P', expr)
+            n += 1
+            a = outcome(lambda: Environment().from_string(src).render())
+            b = outcome(lambda: Environment(enable_async=True).from_string(src).render())
+            if a != b:
+                bad.append((prod, f"{src}: sync -> {a}, async -> {b}"))
+    # a data iterable replaced by an async generator
+    for tpl in ("{{ xs|sort }}", "{{ xs|max }}", "{{ xs|reverse|list }}", "{{ 3 in xs }}", "{{ xs|batch(2)|list }}"):
+        if only and only != "data":
+            continue
+        n += 1
+
+        async def agen():
+            for i in (3, 1, 2):
+                yield i
+
+        a = outcome(lambda: Environment().from_string(tpl).render(xs=[3, 1, 2]))
+        b = outcome(lambda: Environment(enable_async=True).from_string(tpl).render(xs=agen()))
+        if a != b:
+            bad.append(("data", f"{tpl} with xs an async generator of 3,1,2: sync (list) -> {a}, async -> {b}"))
+    return n, bad
+
+
+class Compose(FnTask):
+    def __init__(self):
+        FnTask.__init__(self, PROP, "C09.variant.compose", None, "bounded", None)
+        self.bound_text = f"{len([p for p in PRODUCERS.values() if p])} producing filters x {len(COMPOSE)} consumers (sort, max, batch, reverse, in, iterable test, unpacking, *args, last, length) and 5 consumers of an async-generator data value"
+
+    def run(self, tier, seed):
+        n, bad = compose_disagreements()
+        self.stats = {"templates": n}
+        groups = {}
+        for k, d in bad:
+            groups.setdefault(k, d)
+        if not groups:
+            return [Res(self.name, "bounded-ok", "native", 0, f"{n} compositions agree", "bounded")]
+        return [Res(self.name, "refuted", "native", 0, d[:400], "bounded", {"producer": k}) for k, d in sorted(groups.items())]
+
+    def finding_key(self, res):
+        return "compose:" + (res.witness or {}).get("producer", "")
+
+    def replay(self, w):
+        n, bad = compose_disagreements(w.get("producer"))
+        return (bool(bad), bad[0][1] if bad else f"{n} compositions agree")
+
+
+def consumable_replay(w):
+    n, bad = compose_disagreements(w.get("consumable"))
+    return (bool(bad), bad[0][1] if bad else f"{n} compositions agree")
+
+
+# ---- C09_3: every LoopContext method that AsyncLoopContext inherits must not read an attribute that AsyncLoopContext turns into a coroutine
+
+def async_overrides_table(task, tier, seed):
+    import textwrap
+    async_names = set()
+    for name, member in vars(R.AsyncLoopContext).items():
+        f = member.fget if isinstance(member, property) else member
+        if inspect.iscoroutinefunction(f):
+            async_names.add(name)
+    rs = []
+    for name, member in vars(R.LoopContext).items():
+        if name in vars(R.AsyncLoopContext):
+            continue
+        f = member.fget if isinstance(member, property) else member
+        if not inspect.isfunction(f):
+            continue
+        node, _ = extract.function_ast(f)
+        used = sorted({n.attr for n in ast.walk(node) if isinstance(n, ast.Attribute) and isinstance(n.value, ast.Name) and n.value.id == "self" and n.attr in async_names})
+        ok = not used
+        rs.append(Res(f"C09.loopcontext.inherited_sync_member.{name}", "discharged" if ok else "refuted", "table", 0,
+                      "" if ok else f"AsyncLoopContext inherits LoopContext.{name}, which reads self.{', self.'.join(used)}: in AsyncLoopContext that is a coroutine, so the inherited member "
+                                    "returns / formats a coroutine object instead of the value", "table", None if ok else {"member": name, "reads": used}))
+    return rs
+
+
+def async_overrides_replay(w):
+    from jinja2 import Environment
+    srcs = {"__len__": ["{% for x in 'ab' %}{% if loop %}L{% endif %}{% endfor %}", "{% for x in 'ab' %}{{ loop|length }}{% endfor %}"],
+            "__repr__": ["{% for x in 'ab' %}{{ loop }}{% endfor %}"]}.get(w.get("member"), ["{% for x in 'ab' %}{% if loop %}L{% endif %}{{ loop|length }}{% endfor %}"])
+    for src in srcs:
+        a = outcome(lambda: Environment().from_string(src).render())
+        b = outcome(lambda: re.sub("Async", "", Environment(enable_async=True).from_string(src).render()))
+        if a != b:
+            return True, f"{src}: sync -> {a}, async -> {b}"
+    return False, "inherited members agree"
+
+
+# ---- C09_4 / C09_7: awaitable attribute values, and how much of a lazy input is consumed
+
+class Rec:
+    def __init__(self, val, is_async):
+        self._val, self._is_async = val, is_async
+
+    @property
+    def val(self):
+        if self._is_async:
+            async def get():
+                return self._val
+            return get()
+        return self._val
+
+
+ATTR_CASES = {"sum": "{{ os|sum(attribute='val') }}", "join": "{{ os|join(',', attribute='val') }}", "selectattr": "{{ os|selectattr('val', 'odd')|list|length }}",
+              "rejectattr": "{{ os|rejectattr('val', 'odd')|list|length }}", "map": "{{ os|map(attribute='val')|list }}", "unique": "{{ os|unique(attribute='val')|list|length }}",
+              "groupby": "{{ os|groupby('val')|list|length }}"}
+LOOP_ATTR_CASES = {"selectattr": "{% for x in 'ab' %}{{ [loop]|selectattr('last')|list|length }}{% endfor %}", "rejectattr": "{% for x in 'ab' %}{{ [loop]|rejectattr('last')|list|length }}{% endfor %}",
+                   "sum": "{% for x in 'ab' %}{{ [loop]|sum(attribute='length') }}{% endfor %}", "join": "{% for x in 'ab' %}{{ [loop]|join(',', attribute='length')|int }}{% endfor %}",
+                   "map": "{% for x in 'ab' %}{{ [loop]|map(attribute='length')|join }}{% endfor %}"}
+
+
+def awaitable_attr_case(name):
+    from jinja2 import Environment
+    bad = []
+    for src, mk in ((ATTR_CASES.get(name), True), (LOOP_ATTR_CASES.get(name), False)):
+        if not src:
+            continue
+        a = outcome(lambda: Environment().from_string(src).render(os=[Rec(1, False), Rec(2, False), Rec(1, False)]))
+        b = outcome(lambda: Environment(enable_async=True).from_string(src).render(os=[Rec(1, True), Rec(2, True), Rec(1, True)]))
+        if a != b:
+            bad.append(f"{src}{' with os = objects whose .val is awaitable in async mode' if mk else ''}: sync -> {a}, async -> {str(b)[:120]}")
+    return bad
+
+
+class AwaitableAttr(FnTask):
+    def __init__(self, name):
+        self.fname = name
+        FnTask.__init__(self, PROP, f"C09.variant.do_{name}.awaitable_attribute", None, "bounded", None)
+        self.bound_text = f"filter `{name}` with attribute=: three objects whose attribute value is awaitable in async mode (plain in sync mode), and the loop object itself in a list"
+
+    def run(self, tier, seed):
+        bad = awaitable_attr_case(self.fname)
+        if bad:
+            return [Res(self.name, "refuted", "native", 0, bad[0][:400], "bounded", {"filter": self.fname})]
+        return [Res(self.name, "bounded-ok", "native", 0, "attribute values are awaited like the compiled attribute access does", "bounded")]
+
+    def finding_key(self, res):
+        return "awaitable-attribute:" + (res.witness or {}).get("filter", "")
+
+    def replay(self, w):
+        bad = awaitable_attr_case(w["filter"])
+        return (bool(bad), bad[0] if bad else "agree")
+
+
+LAZY_CASES = {"unique": ["{{ [1, none]|map('abs')|unique|first }}", "{{ x|selectattr('a', 'odd')|unique|list }}"], "slice": ["{{ (5|slice(2)) is iterable }}"],
+              "select": ["{{ [1, none]|map('abs')|select|first }}"], "map": ["{{ [1, none]|map('abs')|map('string')|first }}"]}
+
+
+def lazy_case(name):
+    from jinja2 import Environment
+    bad = []
+    for src in LAZY_CASES.get(name, []):
+        ctx = {"x": [{"a": 1}, {"b": 2}]}
+        a = outcome(lambda: Environment().from_string(src).render(**ctx))
+        b = outcome(lambda: Environment(enable_async=True).from_string(src).render(**ctx))
+        if a != b:
+            bad.append(f"{src}: sync -> {a}, async -> {b}")
+    return bad
+
+
+class Lazy(FnTask):
+    def __init__(self, name):
+        self.fname = name
+        FnTask.__init__(self, PROP, f"C09.variant.do_{name}.consumes_input_lazily", None, "bounded", None)
+        self.bound_text = f"filter `{name}` fed by a lazy upstream filter whose later items raise, consumed only partially ({len(LAZY_CASES[name])} templates)"
+
+    def run(self, tier, seed):
+        bad = lazy_case(self.fname)
+        if bad:
+            return [Res(self.name, "refuted", "native", 0, bad[0][:400], "bounded", {"filter": self.fname})]
+        return [Res(self.name, "bounded-ok", "native", 0, "same outcome", "bounded")]
+
+    def finding_key(self, res):
+        return "eager-input:" + (res.witness or {}).get("filter", "")
+
+    def replay(self, w):
+        bad = lazy_case(w["filter"])
+        return (bool(bad), bad[0] if bad else "agree")
+
+
+def hunt_tasks():
+    ts = [SumVariant(), FnTask(PROP, "C09.variant.result_consumable", consumable_table, "table", consumable_replay), Compose(),
+          FnTask(PROP, "C09.loopcontext.inherited_sync_member", async_overrides_table, "table", async_overrides_replay)]
+    ts[1].finding_key = lambda res: "async-generator-result:" + (res.witness or {}).get("consumable", "")
+    ts[3].finding_key = lambda res: "inherited:" + (res.witness or {}).get("member", "")
+    ts += [AwaitableAttr(n) for n in ATTR_CASES] + [Lazy(n) for n in LAZY_CASES]
+    return ts
+
+
 class Relabel(Task):
     """a task of another property module reported under a C09 name (same contract, same replay)"""
     prop = PROP
@@ -1551,6 +1867,7 @@ def loopcontext_tasks():
 TASKS = (
     erase_tasks()
     + loopcontext_tasks()
+    + hunt_tasks()
     + [SourceErase()]
     + variant_tasks()
     + [VariantBounded(n) for n in VARIANT_NAMES]
